@@ -1,3 +1,3 @@
 SPECIFICATION Spec
-INVARIANTS Theorems SemiNaiveCorrect Emit EmitPlan
+INVARIANTS Theorems SemiNaiveCorrect CodePlanCorrect EmitCover Emit EmitPlan
 CHECK_DEADLOCK FALSE
